@@ -80,6 +80,8 @@ def run(R):
         evs.append(({"op": "ed_exchange", "pk": peer, "sk": s}, ("exchange", name)))
     evs.append(({"op": "ed_exchange", "pk": peer[:31] + [peer[31] ^ 128], "sk": s0}, ("exchange", "signbit")))
     hs = []
+    # the scalar routines signing is composed of, on inputs directed at their rare borrow classes (unreachable through hash outputs)
+    evs += cc.signing_scalar_events(R, 40 if thorough else 12)
     for e, key in evs:
         hs.append({"id": R.next_id(), "cls": "fn", "ev": [e]})
         R.count(key, trivial=False)
